@@ -260,7 +260,7 @@ def setup(tier):
     wd.load()
     br = wd.mod("watchdog.utils.bricks")
     C = br.SkipRepeatsQueue
-    desc = vsched.instrument(line_modules=[br], instr_functions=[C.put, C._put, C._get])
+    desc = vsched.instrument(line_modules=[br], instr_functions=[(C, "put"), (C, "_put"), (C, "_get")])
     return harnesses(tier), desc
 
 
